@@ -109,8 +109,8 @@ Print Assumptions c15_feed_steps.
 Theorem c15_cause_by_cut_position : forall n k, 0 <= n ->
   classify n k =
   match k with
-  | EofTte => 0
-  | EofRaw => if n =? 0 then 1 else if n <? 4 then 2 else 0
+  | EofTte => if n =? 0 then 0 else 6
+  | EofRaw => if n =? 0 then 1 else if n <? 4 then 2 else 6
   | ErrRaw t => if n <? 4 then 1000 + 10 * t else 1000 + 10 * t + 1
   | ErrTte t => 1000 + 10 * t + 2
   | ClosedErr => 5
@@ -120,13 +120,13 @@ Print Assumptions c15_cause_by_cut_position.
 
 (** ** the cause is nil only for Close() or an error classified as end of file *)
 
-(** (1) [classify] is nil exactly for an END_OF_FILE exception (anywhere) and for io.EOF once the
-    4 header bytes are in; (2) a step that publishes does so on the current generation's
+(** (1) [classify] is nil exactly for an END_OF_FILE exception that arrives between two frames (no
+    byte of a next frame received); (2) a step that publishes does so on the current generation's
     channel while closing it, with nil for Close() and the calling loop's recorded cause
     otherwise; (3) a loop about to close carries cause nil exactly in the EOF branch; (4) a
     loop holding "error, cause nil" got it from a read error so classified *)
 Theorem c15_nil_cause_only_for_close_or_eof :
-  (forall n k, rkind_wf k -> (classify n k = 0 <-> k = EofTte \/ (k = EofRaw /\ 4 <= n)))
+  (forall n k, rkind_wf k -> (classify n k = 0 <-> k = EofTte /\ n = 0))
   /\ (forall pol m p tr s e s' o g,
         run Fixed pol (init m p) tr = Some s -> step Fixed pol s e = Some (s', o) -> pub s' g <> pub s g ->
         g = gen s /\ is_open s = true /\ is_open s' = false /\
@@ -228,16 +228,35 @@ Theorem c15_recoverable_repeatedly : forall pol p tr s c,
 Proof. exact recoverable. Qed.
 Print Assumptions c15_recoverable_repeatedly.
 
-(** left in the code (known finding): a stream that ends inside a frame - after 1..3 header bytes
-    with an END_OF_FILE exception, or in the body with plain io.EOF - is reported as a clean
-    close: nil on Closed(), OnClosedCleanly, runner stopped, although nobody called Close() *)
-Theorem c15_eof_inside_frame_reported_clean_refuted :
+(** repaired (was known finding C15-eof-inside-frame-clean): a stream that ends inside a frame -
+    after 1..3 header bytes with an END_OF_FILE exception, or in the body with plain io.EOF - is
+    reported as an unclean close: error 6 on Closed(), OnClosedUncleanly, the runner goes on to
+    reopen; the same END_OF_FILE between frames still is a clean close *)
+Theorem c15_eof_inside_frame_reported_unclean :
   (exists s, run Fixed pol0 (init true false) tr_cut_body = Some s
-     /\ pub s 1%nat = [0] /\ handled s = [0] /\ mon s = MDone /\ is_open s = false)
+     /\ pub s 1%nat = [6] /\ handled s = [6] /\ mon s = MWait 0 5 /\ is_open s = false)
   /\ (exists s, run Fixed pol0 (init true false) tr_cut_header = Some s
+     /\ pub s 1%nat = [6] /\ handled s = [6] /\ mon s = MWait 0 5 /\ is_open s = false)
+  /\ (exists s, run Fixed pol0 (init true false) tr_cut_boundary = Some s
      /\ pub s 1%nat = [0] /\ handled s = [0] /\ mon s = MDone /\ is_open s = false).
-Proof. exact eof_inside_frame_clean. Qed.
-Print Assumptions c15_eof_inside_frame_reported_clean_refuted.
+Proof. exact eof_inside_frame_unclean. Qed.
+Print Assumptions c15_eof_inside_frame_reported_unclean.
+
+(** for every error and every cut position inside a frame the cause is not nil (with
+    c15_failure_detected_and_closed: the transport ends closed with that non-nil cause, and with
+    c15_nil_cause_only_for_close_or_eof: nil on Closed() means Close() or END_OF_FILE between frames) *)
+Theorem c15_read_error_inside_frame_never_clean : forall n k,
+  rkind_wf k -> n <> 0 -> classify n k <> 0.
+Proof. exact classify_inside_frame_not_nil. Qed.
+Print Assumptions c15_read_error_inside_frame_never_clean.
+
+(** the classification of the code before that repair ([classify_pinned]): END_OF_FILE after two
+    header bytes, io.EOF after one body byte, and END_OF_FILE at any position were nil causes *)
+Theorem c15_eof_inside_frame_clean_pinned_refuted :
+  classify_pinned 2 EofTte = 0 /\ classify_pinned 5 EofRaw = 0
+  /\ forall n, classify_pinned n EofTte = 0.
+Proof. exact classify_pinned_nil_inside_frame. Qed.
+Print Assumptions c15_eof_inside_frame_clean_pinned_refuted.
 
 (** ** the hypotheses are satisfiable by non-trivial histories *)
 
